@@ -480,6 +480,29 @@ func c14SeqOracle(bucketNs int64) func(r *SeqRun) []Viol {
 				out = append(out, Viol{Key: key, What: fmt.Sprintf("value %d of key %d expired at t=%dms; %d complete sweeps ran at least two bucket lengths after both its expiry and its insertion while it was stored, yet it is still in the map and its capacity is still held (t=%dms)", e.Value, ti.key, ti.exp/1e6, sweeps, r.Post.ClockNs/1e6)})
 			}
 		}
+		// "its capacity released": at a drained state no capacity is held for a key that is not in
+		// the map because its TTL entry was let go of (however that happened)
+		if allIdle(r.Post.ClientState) && len(r.Post.SetBufItems) == 0 {
+			stored := map[uint64]bool{}
+			for _, e := range r.Post.Store {
+				stored[e.Key] = true
+			}
+			for _, c := range r.Post.Costs {
+				if stored[c.Key] {
+					continue
+				}
+				// the last new item applied for this key
+				var last *ttlInfo
+				for _, ev := range r.Events {
+					if ev.Kind == evApplied && ev.C == 0 && uint64(ev.A) == c.Key {
+						last = tt[ev.B]
+					}
+				}
+				if last != nil && last.exp != 0 && r.Post.ClockNs > last.exp {
+					out = append(out, Viol{Key: "C14/capacity-of-expired-entry-not-released", What: fmt.Sprintf("key %d is charged %d but is not in the map; its last applied item had a TTL that elapsed at t=%dms (now t=%dms): the expired entry is gone, its capacity is not released", c.Key, c.Cost, last.exp/1e6, r.Post.ClockNs/1e6)})
+				}
+			}
+		}
 		return out
 	}
 }
